@@ -35,7 +35,7 @@ func (s *Server) Rename(ctx context.Context, params *protocol.RenameParams) (*pr
 		return nil, nil
 	}
 
-	resolved := s.getWorkspaceResolved(params.TextDocument.URI)
+	resolved := s.getResolvedAround(params.TextDocument.URI, journal)
 	currentPath := uriToPath(params.TextDocument.URI)
 
 	locations := findReferences(target, resolved, currentPath, journal, true)
